@@ -1576,6 +1576,8 @@ class Interp:
                     raise Unmodelled('chunks of an unknown size')
                 n_ = nv[1]
                 xs_ = v[1]
+                if self.symbolic_len and len(xs_) >= 2 and n_ >= len(xs_):
+                    n_ = 1       # the abstract collection stands for collections of any size: it may well span several chunks
                 parts = [('ref', Cell(('vec', xs_[i:i + n_]))) for i in range(0, len(xs_), n_)]
                 if seg == 'chunks_exact':
                     parts = [p_ for p_ in parts if len(p_[1].v[1]) == n_]
